@@ -86,6 +86,23 @@ Definition gkey (pat : str) (subs : subs_t) : str :=
 
 Definition g_key (g : glob) : str := gkey (g_pat g) (g_subs g).
 
+(* Translated from the source (gen/GenClaims.v register_pre_delete): the columns on which
+   register_nglob's own `DELETE FROM nglob WHERE ...` (if it has one) compares the existing rows
+   with the new registration before inserting it: 1 node, 2 pattern, 3 regex. [] = the code deletes
+   nothing (the unchanged tree). The model follows whatever the code does; that the list is empty
+   is what the registration theorems need (proofs/ClaimsRegProofs.v: register_supersedes_nothing). *)
+Definition superseded (cols : list N) (s pat key : str) (g : glob) : bool :=
+  forallb (fun c => if c =? 1 then str_eqb (g_step g) s
+                    else if c =? 2 then str_eqb (g_pat g) pat
+                    else if c =? 3 then str_eqb (g_key g) key
+                    else false) cols.
+
+Definition pre_delete (cols : list N) (s pat key : str) (gs : list glob) : list glob :=
+  match cols with
+  | [] => gs
+  | _ => filter (fun g => negb (superseded cols s pat key g)) gs
+  end.
+
 Record state := mkState {
   claims : list (str * claim);
   loose : list str;
@@ -549,7 +566,8 @@ Definition register_glob (s pat : str) (subs : subs_t) (ms : list str) (st : sta
       match find_first (is_prefix stepup_prefix) ms' with
       | Some p => Err (MStepupGlob pat p)
       | None => Ok (mkState (claims st) (loose st) (trees st) (steps st)
-                            (globs st ++ [mkGlob s pat subs ms']) (sinks st))
+                            (pre_delete register_pre_delete s pat (gkey pat subs) (globs st)
+                             ++ [mkGlob s pat subs ms']) (sinks st))
       end
   end).
 
